@@ -366,18 +366,23 @@ class Explorer:
         st0 = State()
         st0.sched = Sched()
         # frontier: states to expand  (state, trail, depth); the initial pseudo-state expands by 'init'
-        work = [(st0, None, 0, [('init', None, 'init')])]
+        work = [(st0, None, 0, [('init', None, 'init')], frozenset())]
         por = getattr(self.h, 'por', True)
+        # sleep sets (with the sleep set as part of the visited key) are off by default: measured, they re-explore more
+        # states than they save on these harnesses
+        indep = getattr(self.h, 'independent', None) if (por and getattr(self.h, 'use_sleep_sets', False)) else None
         while work:
             if self.deadline and time.time() > self.deadline:
                 self.inconclusive.append('time budget exhausted with %d frontier entries' % len(work))
                 break
             if len(self.inconclusive) > 50:
                 break
-            st, trail, depth, trs = work.pop()
+            st, trail, depth, trs, sleep = work.pop()
             results = []
             chosen = None
             for tr in trs:
+                if tr[2] in sleep:
+                    continue
                 res = self.run_transition(st, tr, trail)
                 results.append((tr, res))
                 if por and tr[0] == 'task' and res and all(r[3] for r in res):
@@ -388,7 +393,17 @@ class Explorer:
                 results = [chosen]
                 self.stats.por_singletons = getattr(self.stats, 'por_singletons', 0) + 1
             succs = []
+            done_labels = []
             for tr, res in results:
+                # sleep set for the successors of tr: everything asleep here or already explored from here that is
+                # independent of tr stays asleep
+                if indep is not None:
+                    m0 = res[0][1] if res else None
+                    cand = set(sleep) | set(done_labels)
+                    nsleep = frozenset(u for u in cand if m0 is not None and indep(m0, u, tr[2]))
+                else:
+                    nsleep = frozenset()
+                done_labels.append(tr[2])
                 for outcome, m, ntrail, inv, viol in res:
                     if outcome == 'violation':
                         self.violations.append((viol, ntrail, m))
@@ -399,18 +414,19 @@ class Explorer:
                         continue
                     self.stats.transitions += 1
                     d = digest(m.st)
-                    if d in self.seen:
+                    key = (d, nsleep) if nsleep else d
+                    if key in self.seen or d in self.seen:
                         self.stats.revisits += 1
                         continue
-                    self.seen.add(d)
+                    self.seen.add(key)
                     self.stats.states += 1
                     if depth + 1 > self.stats.max_depth:
                         self.stats.max_depth = depth + 1
-                    succs.append((m, ntrail))
+                    succs.append((m, ntrail, nsleep))
             if self.stats.states > self.max_states:
                 self.inconclusive.append('state budget %d exceeded' % self.max_states)
                 break
-            for m, ntrail in succs:
+            for m, ntrail, nsleep in succs:
                 if hasattr(self.h, 'is_terminal') and self.h.is_terminal(m):
                     self.stats.quiescent += 1
                     if len(self.samples) < 6:
@@ -435,7 +451,8 @@ class Explorer:
                     rnd.shuffle(ntrs)
                 # task polls first: they are the candidates for invisible singleton steps
                 ntrs.sort(key=lambda t: 0 if t[0] == 'task' else 1)
-                work.append((m.st, ntrail, depth + 1, ntrs))
+                live_sleep = frozenset(l for l in nsleep if any(t[2] == l for t in ntrs))
+                work.append((m.st, ntrail, depth + 1, ntrs, live_sleep))
 
 def _short(x):
     if isinstance(x, T):
